@@ -406,6 +406,11 @@ def universes(family, tier, seed):
     for nodes, edges in CURATED4:
         for mode in (['ident', 'rel'] if tier == 'thorough' else ['ident']):
             jobs.append({'family': 'H-EVAL', 'nodes': nodes, 'edges': edges, 'mode': mode, 'max_states': 150000})
+    # a seeded sample of the 5184 four-job graphs from the fully symbolic well-formed history (the complete enumeration stops at 3)
+    rng4 = random.Random(7919 * seed + 5)
+    inst4 = list(H.all_instances(4))
+    for nodes, edges in rng4.sample(inst4, 600 if tier == 'thorough' else 60):
+        jobs.append({'family': 'H-EVAL', 'nodes': nodes, 'edges': edges, 'mode': 'ident', 'max_states': 1500000, 'tag': 'sym4'})
     if tier == 'thorough':
         jobs += built_jobs('H-EVAL', tier, seed, n4=-1, chain=-1, chain_max=6, rand=300, modes=('ident',))
         jobs += built_jobs('H-EVAL', tier, seed, n4=600, chain=300, chain_max=6, rand=0, modes=('reld',))
